@@ -397,7 +397,7 @@ func run(in input, em *lib.Emitter, id string) {
 		out.Kind, out.Detail = "panic", panicked
 		sigsCoq, submitted = "[]", "None"
 	}
-	coq := fmt.Sprintf("{| c_proto := %s; c_cfg := {| f_self := %s; f_ops := %s; f_grp := {| g_size := %s; g_ia := %s; g_dq := %s |}; "+
+	coq := fmt.Sprintf("{| c_proto := %s; c_cfg := {| f_self := %s; f_ops := %s; f_grp := mk_grp %s %s %s; "+
 		"f_session := %s; f_hash := %s; f_selfsig := %s |}; c_params := {| p_gsize := %s; p_honest := %s; p_quorum := %s |}; "+
 		"c_raws := %s; c_addr := %s; c_env_ok := %s; c_sigs := %s; c_submitted := %s |}",
 		protoC, lib.N(uint64(in.Self)), nl(in.Ops), lib.N(uint64(n)), nl(in.IA), nl(in.DQ),
@@ -438,6 +438,29 @@ func run(in input, em *lib.Emitter, id string) {
 	em.Tally("proto-" + in.Proto)
 	em.Tally(fmt.Sprintf("history-len-%02d", len(in.Raws)))
 	em.Tally(fmt.Sprintf("support-%02d", len(sigs)))
+	if panicked == "" {
+		// distance of the support count from the submitter's threshold (statistics only)
+		thr := in.Quorum
+		switch in.Proto {
+		case "beacon":
+			thr = in.Honest + (n-in.Honest)/2
+		case "inactivity":
+			thr = in.Honest
+		}
+		switch d := len(sigs) - thr; {
+		case d == 0:
+			em.Tally("gate-" + in.Proto + "-at-threshold")
+		case d == -1:
+			em.Tally("gate-" + in.Proto + "-one-below")
+		case d < -1:
+			em.Tally("gate-" + in.Proto + "-far-below")
+		default:
+			em.Tally("gate-" + in.Proto + "-above")
+		}
+	}
+	if len(in.IA)+len(in.DQ) > 0 {
+		em.Tally("with-excluded-member")
+	}
 	if out.Submitted {
 		em.Tally("submitted")
 	} else {
@@ -569,6 +592,11 @@ func main() {
 			r := rng.Fork(fmt.Sprintf("small%d", i))
 			in := input{Proto: protos[i%3], Ops: [][]int{{1, 2, 3}, {1, 2, 2}}[r.Intn(2)], Self: 1, Pref: 9,
 				Honest: 2, Quorum: r.Range(2, 3), EnvOK: !r.Chance(1, 8)}
+			if r.Chance(1, 8) {
+				in.DQ = []int{3}
+			} else if r.Chance(1, 8) {
+				in.IA = []int{2}
+			}
 			for _, m := range hist[perm[i]] {
 				in.Raws = append(in.Raws, variant(in, m.seat, m.v, r))
 			}
@@ -666,6 +694,26 @@ func main() {
 				h := 2*t - n
 				if h >= 1 && h <= n {
 					in.Honest = h
+				}
+			}
+		}
+		if r.Chance(1, 2) {
+			// thresholds right at the size of the set the implementation builds from this history
+			// (a first run with the thresholds above tells the size; it does not depend on them)
+			if probe, _, _, pn := exec(in); pn == "" {
+				t := len(probe) + r.Range(-1, 1)
+				if t < 1 {
+					t = 1
+				}
+				if t > n {
+					t = n
+				}
+				in.Honest, in.Quorum = t, t
+				if in.Proto == "beacon" { // H + (N-H)/2 = t  for H = 2t-N and H = 2t-N+1
+					h := 2*t - n + r.Intn(2)
+					if h >= 1 && h <= n {
+						in.Honest = h
+					}
 				}
 			}
 		}
